@@ -318,8 +318,12 @@ def find_replay(spec, res, viol, tier, seed):
             data = load_json(out, None)
             if os.path.exists(out):
                 os.unlink(out)
-            if data and data.get('violations'):
-                w = data['violations'][0]
+            known_ = load_json(os.path.join(VERIF, 'known_findings.json'), {'findings': []})
+            kk_ = {f['key'] for f in known_.get('findings', []) if f['property'] == res.pid}
+            # (a recorded finding met on the way is not a replay of THIS obligation's counterexample)
+            cands_ = [v_ for v_ in (data or {}).get('violations', []) if v_.get('finding_key') not in kk_]
+            if cands_:
+                w = cands_[0]
                 w['source'] = 'solver counterexample replayed on the real function'
                 return w
         except Exception:
